@@ -145,7 +145,7 @@ class Ctx:
         if workers == 1:
             cmd = ["java", "-XX:+UseSerialGC", "-Xmx4g", "-Xss64m", "-XX:TieredStopAtLevel=1"]
         else:
-            cmd = ["java", "-XX:+UseParallelGC", "-Xss64m"]
+            cmd = ["java", "-XX:+UseParallelGC", "-Xmx8g", "-Xss64m"]    # bounded: several TLC runs of one check work in parallel
         cmd += java_opts or []
         cmd += ["-cp", TLA_CP, "tlc2.TLC", "-metadir", os.path.join(d, "meta"),
                 "-workers", str(workers), "-config", cfg]
